@@ -167,6 +167,41 @@ def infinite_costs_part(ctx, count):
             ctx.nontriv(("inf-costs", B.shape, tuple(desc["costs"]), tuple(r[:k])))
 
 
+def cost_container_part(ctx, count):
+    """the cost vector lives in the caller's container (an integer or single-precision array as it comes out of a price table); the
+    caller edits it in place between two fits of the same optimizer object (re-pricing): a fit uses the costs as they are NOW –
+    compared with a fresh optimizer given the new costs (deterministic pipeline: identical ranking)"""
+    from pysensors.optimizers import CCQR
+    rng = ctx.rng
+    for idx in range(count):
+        n, m = rng.randint(4, ctx.scale(9, 14)), rng.randint(2, ctx.scale(6, 9))
+        B = gen.gen_generic_matrix(rng, n, m)
+        dt = rng.choice(["int64", "int32", "float32", "float64", "int16"])
+        c1 = np.array([rng.randint(0, 12) for _ in range(n)]).astype(dt)
+        c2 = np.array([rng.randint(0, 12) for _ in range(n)]).astype(dt)
+        if rng.random() < 0.3:
+            c2 = np.zeros(n).astype(dt)
+        ctx.evaluations += 1
+        ctx.count("cost_container:" + dt)
+        desc = {"B": B.tolist(), "costs_first": c1.tolist(), "costs_second": c2.tolist(), "dtype": dt}
+        try:
+            held = c1.copy()
+            opt = CCQR(sensor_costs=held)
+            opt.fit(B.copy())
+            held[:] = c2                      # re-priced in place
+            r2 = np.array(opt.fit(B.copy()).get_sensors()).tolist()
+            ref = np.array(CCQR(sensor_costs=c2.copy()).fit(B.copy()).get_sensors()).tolist()
+        except Exception as e:
+            ctx.count("cost_container_raises:" + type(e).__name__)
+            continue
+        if r2 != ref:
+            ctx.violation("concrete", f"CCQR re-fitted after its cost array ({dt}) was re-priced in place ranks {r2}; a fresh optimizer with the new "
+                                      f"costs ranks {ref}",
+                          {"signature": "greedy-rule:stale-costs-after-inplace-repricing", "container_case": desc, "observed": r2, "required": ref, "index": idx})
+        elif r2 != list(range(n)):
+            ctx.nontriv(("cost-container", dt, B.shape, tuple(r2)))
+
+
 def run(ctx: C.Ctx):
     from .. import shapes_static, translate_householder
     shapes_static.run_with_translation(ctx, translate_householder, "Householder", "Householder-loop", lambda: _run(ctx),
@@ -175,6 +210,7 @@ def run(ctx: C.Ctx):
 
 def _run(ctx: C.Ctx):
     infinite_costs_part(ctx, ctx.scale(40, 500))
+    cost_container_part(ctx, ctx.scale(30, 300))
     rng = ctx.rng
     todo = []
     for idx in range(ctx.scale(400, 8000)):
@@ -234,6 +270,9 @@ def _run(ctx: C.Ctx):
 
 def replay(ctx: C.Ctx, payload):
     d = payload["data"]
+    if "container_case" in d:
+        print("# deterministic case: re-run ./check C04 (cost container re-priced in place)", d["container_case"]["dtype"])
+        return
     if "inf_case" in d:
         from pysensors.optimizers import CCQR
         c = d["inf_case"]
